@@ -44,9 +44,15 @@ theorem CtOut.grow {c : PContacts} (h : CtOut b c) (hs : b.size ≤ b'.size) : C
 theorem CtIdle.grow {c : PContacts} (h : CtIdle b c) (hs : b.size ≤ b'.size) : CtIdle b' c :=
   ⟨h.out.grow hs, h.clean, h.cur⟩
 
+theorem CtIn.grow {o : Nat} {c : PContacts} (h : CtIn b o c) (hs : b.size ≤ b'.size) : CtIn b' o c :=
+  ⟨h.lhv, fun k h1 h2 => (h.stored k h1 h2).grow hs, h.lastI.grow hs, h.firstI.grow hs⟩
+
+theorem PaIn.grow {o : Nat} {c : PPAIs} (h : PaIn b o c) (hs : b.size ≤ b'.size) : PaIn b' o c :=
+  ⟨h.lhv, fun k h1 h2 => (h.stored k h1 h2).grow hs, h.lastI.grow hs⟩
+
 theorem CtSafe.grow {o : Nat} {c : PContacts} (h : CtSafe b o c) (hs : b.size ≤ b'.size) : CtSafe b' o c :=
   ⟨by have := h.ho; omega, h.cur.grow hs, h.clean, h.lo, fun k h1 h2 => (h.stored k h1 h2).grow hs, h.lastF.grow hs,
-   h.firstF.grow hs, h.pnc⟩
+   h.firstF.grow hs, h.pnc, h.inn.grow hs⟩
 
 theorem PaOut.grow {c : PPAIs} (h : PaOut b c) (hs : b.size ≤ b'.size) : PaOut b' c :=
   ⟨PField.inside_mono h.lhv hs, fun k h1 h2 => (h.stored k h1 h2).grow hs, h.lastF.grow hs, h.pnc⟩
@@ -56,13 +62,13 @@ theorem PaIdle.grow {c : PPAIs} (h : PaIdle b c) (hs : b.size ≤ b'.size) : PaI
 
 theorem PaSafe.grow {o : Nat} {c : PPAIs} (h : PaSafe b o c) (hs : b.size ≤ b'.size) : PaSafe b' o c :=
   ⟨by have := h.ho; omega, h.cur.grow hs, h.clean, h.lo, fun k h1 h2 => (h.stored k h1 h2).grow hs, h.lastF.grow hs,
-   h.pnc⟩
+   h.pnc, h.inn.grow hs⟩
 
 theorem HvSafe.grow {o : Nat} {st : HState} {hv : PHdrVals} (h : HvSafe b o st hv) (hs : b.size ≤ b'.size) :
     HvSafe b' o st hv :=
   ⟨h.from_.grow hs, h.to.grow hs, h.callid.grow hs, h.cseq.grow hs, h.clen.grow hs, h.expires.grow hs,
    fun hh => (h.ctS hh).grow hs, fun hh => (h.ctI hh).grow hs, fun hh => (h.paS hh).grow hs,
-   fun hh => (h.paI hh).grow hs⟩
+   fun hh => (h.paI hh).grow hs, h.ctIn.grow hs, h.paIn.grow hs⟩
 
 theorem HvFine.grow {hv : PHdrVals} (h : HvFine b hv) (hs : b.size ≤ b'.size) : HvFine b' hv :=
   ⟨h.from_.grow hs, h.to.grow hs, ⟨PField.inside_mono h.callid.1 hs, h.callid.2⟩, h.cseq.grow hs, h.clen.grow hs,
